@@ -170,6 +170,10 @@ func c01Twin(run *evid.Run, h *hx.History, twin int, table map[string]*stateFn, 
 		} else {
 			table[K] = sf
 		}
+		// every way of asking for the linearised sequence gives the same one
+		if !model.EqualSeq(o.SnapValues, o.Values) {
+			run.Violate("C01/state-function-values", det("shape", h.Shape, "order", h.Order, "view", "ToSnapshot().Values"), wit(where), "ToSnapshot().Values %v differs from Values() %v at [%s]", hx.Shorts(o.SnapValues), hx.Shorts(o.Values), where)
+		}
 		// model equality of heads
 		if !model.EqualAsSets(o.Heads, model.Heads(o.Set)) {
 			run.Violate("C01/heads-model", det("shape", h.Shape), wit(where), "heads %v != model heads %v", hx.SortedShorts(o.Heads), hx.Shorts(model.Heads(o.Set)))
